@@ -227,3 +227,233 @@ func TestVxC17CloseSilent(t *testing.T) {
 		},
 	})
 }
+
+// ---------------------------------------------------------------------------------------------
+// A session that cannot be created leaves nothing behind: NewSession starts its debouncers before it
+// looks at the TLS options or dials anybody, and the caller gets no Session it could close.
+
+type vxC17FailCase struct {
+	Why    string `json:"why"`    // "ca-missing", "cert-only", "key-only", "ca-garbage", "refused", "auth-both"
+	Proto  int    `json:"proto"`  // for "refused"
+	Repeat int    `json:"repeat"` // attempts in a row
+}
+
+func vxRunC17Failed(c *vxC17FailCase, k *vstats.Case) error {
+	if c.Repeat < 1 || c.Repeat > 6 || c.Proto < 1 || c.Proto > 5 {
+		return nil
+	}
+	fx, err := vxC20Fixture()
+	if err != nil {
+		return fmt.Errorf("harness: fixture: %v", err)
+	}
+	before := map[int]bool{}
+	for _, g := range vxDriverGoroutines() {
+		before[g.ID] = true
+	}
+	for i := 0; i < c.Repeat; i++ {
+		cl := vnode.NewCluster(vxSpecs(2, 1))
+		cfg := vxClusterConfig(cl, c.Proto, func(cfg *ClusterConfig) { cfg.ConnectTimeout = 300 * time.Millisecond })
+		switch c.Why {
+		case "ca-missing":
+			cfg.SslOpts = &SslOptions{CaPath: fx.missing}
+		case "ca-garbage":
+			cfg.SslOpts = &SslOptions{CaPath: fx.garbage}
+		case "cert-only":
+			cfg.SslOpts = &SslOptions{CertPath: fx.cliCert}
+		case "key-only":
+			cfg.SslOpts = &SslOptions{KeyPath: fx.cliKey}
+		case "refused":
+			for _, nd := range cl.Nodes() {
+				nd.SetRefuse("refuse")
+			}
+		default:
+			return nil
+		}
+		s, err := cfg.CreateSession()
+		if err == nil {
+			s.Close()
+			return fmt.Errorf("harness: CreateSession succeeded although it cannot (%s)", c.Why)
+		}
+	}
+	k.NonTrivial()
+	k.Class("session not created: " + c.Why)
+	deadline := time.Now().Add(5 * time.Second)
+	for {
+		var left []vxGor
+		for _, g := range vxDriverGoroutines() {
+			if !before[g.ID] {
+				left = append(left, g)
+			}
+		}
+		if len(left) == 0 {
+			return nil
+		}
+		if time.Now().After(deadline) {
+			return fmt.Errorf("%d attempt(s) to create a session failed (%s) and returned no Session; 5 s later %d goroutine(s) of the driver are still there: %s", c.Repeat, c.Why, len(left), vxGorSummary(left))
+		}
+		time.Sleep(5 * time.Millisecond)
+	}
+}
+
+func TestVxC17FailedSession(t *testing.T) {
+	vx.Check(t, vx.Prop{
+		ID: "C17", Part: "TestVxC17FailedSession",
+		Rule: "1..6 attempts in a row to create a session that cannot be created (CaPath missing or not PEM, CertPath without KeyPath and the reverse, every node refuses connections; protocol 1..5); oracle: CreateSession returns an error, and within 5 s no goroutine started by the driver is left (the caller holds no Session it could close); every case is non-trivial; distinct by the case",
+		Draw: func(t *rapid.T) interface{} {
+			return &vxC17FailCase{Why: rapid.SampledFrom([]string{"ca-missing", "ca-garbage", "cert-only", "key-only", "refused"}).Draw(t, "why"),
+				Proto: rapid.IntRange(1, 5).Draw(t, "proto"), Repeat: rapid.IntRange(1, 6).Draw(t, "repeat")}
+		},
+		New: func() interface{} { return &vxC17FailCase{} },
+		Run: func(ci interface{}, k *vstats.Case) error {
+			return vxRunC17Failed(ci.(*vxC17FailCase), k)
+		},
+	})
+}
+
+// ---------------------------------------------------------------------------------------------
+// A connection that dies between the end of its handshake and its insertion into the pool: the pool's
+// error handler runs before the connection is in the pool, finds nothing to remove - and the connection
+// must not be inserted afterwards as if it were alive. (A ConnectObserver runs in exactly that window.)
+
+type vxC17DieCase struct {
+	Proto    int   `json:"proto"`
+	Hosts    int   `json:"hosts"`
+	NumConns int   `json:"num_conns"`
+	Kill     []int `json:"kill"` // which successful connects (counted over the session, 1-based) lose their connection in the window
+}
+
+type vxC17DieObs struct{ f func(ObservedConnect) }
+
+func (o vxC17DieObs) ObserveConnect(c ObservedConnect) { o.f(c) }
+
+func vxRunC17Die(c *vxC17DieCase, k *vstats.Case) error {
+	if c.Proto < 1 || c.Proto > 5 || c.Hosts < 1 || c.Hosts > 3 || c.NumConns < 1 || c.NumConns > 3 || len(c.Kill) == 0 || len(c.Kill) > 3 {
+		return nil
+	}
+	kill := map[int]bool{}
+	for _, x := range c.Kill {
+		if x < 2 || x > 12 {
+			return nil // connect #1 is the control connection's: its loss before CreateSession returns fails the session
+		}
+		kill[x] = true
+	}
+	cl := vnode.NewCluster(vxSpecs(c.Hosts, 1))
+	var mu sync.Mutex
+	n, killed := 0, 0
+	obs := vxC17DieObs{f: func(o ObservedConnect) {
+		if o.Err != nil {
+			return
+		}
+		mu.Lock()
+		n++
+		hit := kill[n]
+		mu.Unlock()
+		if !hit {
+			return
+		}
+		// the newest connection of that node is the one just established
+		nd := cl.Node(o.Host.ConnectAddress().String())
+		if nd == nil {
+			return
+		}
+		cs := nd.Conns()
+		if len(cs) == 0 {
+			return
+		}
+		cs[len(cs)-1].Close()
+		mu.Lock()
+		killed++
+		mu.Unlock()
+		time.Sleep(30 * time.Millisecond) // the driver's reader sees the end of the stream and reports the connection closed
+	}}
+	s, err := vxClusterConfig(cl, c.Proto, func(cfg *ClusterConfig) {
+		cfg.NumConns = c.NumConns
+		cfg.ConnectObserver = obs
+		cfg.ConnectTimeout = time.Second
+		// a connection lost in the window is a failed connect: if it was the pool's only one the host is marked
+		// down, as after any failed connect, and comes back through the periodic reconnection
+		cfg.ReconnectInterval = 200 * time.Millisecond
+		cfg.PoolConfig.HostSelectionPolicy = RoundRobinHostPolicy()
+	}).CreateSession()
+	if err != nil {
+		k.Class("die: CreateSession failed")
+		return nil
+	}
+	defer s.Close()
+	// queries keep coming (a pool that is short refills when it is picked)
+	deadline := time.Now().Add(8 * time.Second)
+	var last string
+	for {
+		qerr := s.Query("LIST x").Exec()
+		good := true
+		open := 0
+		s.pool.mu.RLock()
+		for _, p := range s.pool.hostConnPools {
+			p.mu.RLock()
+			for _, pc := range p.conns {
+				if pc.Closed() {
+					good = false
+					last = fmt.Sprintf("the pool of %s holds a closed connection", p.host.ConnectAddress())
+				} else {
+					open++
+				}
+			}
+			p.mu.RUnlock()
+		}
+		s.pool.mu.RUnlock()
+		if open != c.Hosts*c.NumConns {
+			good = false
+			if last == "" || !strings.Contains(last, "closed connection") {
+				last = fmt.Sprintf("%d open pool connections, want %d", open, c.Hosts*c.NumConns)
+			}
+		}
+		if qerr != nil {
+			good = false
+			last += fmt.Sprintf("; query: %v", qerr)
+		}
+		if good {
+			break
+		}
+		if time.Now().After(deadline) {
+			mu.Lock()
+			kd := killed
+			mu.Unlock()
+			return fmt.Errorf("%d connection(s) were closed by their node between the handshake and the insertion into the pool; 8 s of queries later: %s", kd, last)
+		}
+		last = ""
+		time.Sleep(10 * time.Millisecond)
+	}
+	mu.Lock()
+	kd := killed
+	mu.Unlock()
+	if kd > 0 {
+		k.NonTrivial()
+		k.Class(fmt.Sprintf("die: %d connection(s) lost before insertion", kd))
+	} else {
+		k.Class("die: nothing lost")
+	}
+	return nil
+}
+
+func TestVxC17DiesBeforePooled(t *testing.T) {
+	vx.Check(t, vx.Prop{
+		ID: "C17", Part: "TestVxC17DiesBeforePooled",
+		Rule: "protocol 1..5, 1..3 hosts x 1..3 connections; 1..3 of the session's successful connects (the 2nd..12th) lose their connection inside the ConnectObserver, i.e. after the handshake and before the pool inserts it; queries keep coming, ReconnectInterval 200 ms (a host whose only connection was lost that way is marked down like after any failed connect); oracle: within 8 s every pool holds NumConns open connections, none of them closed, and a query succeeds; non-trivial = a connection was lost in the window; distinct by the case",
+		Draw: func(t *rapid.T) interface{} {
+			c := &vxC17DieCase{Proto: rapid.IntRange(1, 5).Draw(t, "proto"), Hosts: rapid.IntRange(1, 3).Draw(t, "hosts"), NumConns: rapid.IntRange(1, 3).Draw(t, "numconns")}
+			seen := map[int]bool{}
+			for i := rapid.IntRange(1, 3).Draw(t, "nkill"); i > 0; i-- {
+				x := rapid.IntRange(2, 2+c.Hosts*c.NumConns+2).Draw(t, "kill")
+				if !seen[x] {
+					seen[x] = true
+					c.Kill = append(c.Kill, x)
+				}
+			}
+			return c
+		},
+		New: func() interface{} { return &vxC17DieCase{} },
+		Run: func(ci interface{}, k *vstats.Case) error {
+			return vxRunC17Die(ci.(*vxC17DieCase), k)
+		},
+	})
+}
